@@ -17,6 +17,9 @@ pub struct Session {
     /// Panics on threads of this session are expected inputs: the harness's
     /// panic hook stays silent for them.
     pub quiet: bool,
+    /// Controlled executions only: dropping a channel endpoint is a scheduling
+    /// point of its own (finer granularity; used to validate the default).
+    pub drop_points: bool,
 }
 
 impl Session {
@@ -26,6 +29,7 @@ impl Session {
             rng_factory,
             rng_calls: AtomicUsize::new(0),
             quiet,
+            drop_points: false,
         }
     }
 }
